@@ -127,8 +127,11 @@ def search(run, info):
                 run.violation("impl-violates-property", "respelling changes the result: %s" % mode, {"a": a, "b": b})
             continue
         if r.get("a") != "ok":
-            # the base spelling itself is not accepted: not a respelling question (C01 / the generators' business)
-            if kind in ("ast", "valid-unit", "fixed-regression"):
+            # the base spelling itself is not accepted: when the other spelling is, the two spellings are read differently
+            if r.get("b") == "ok":
+                run.violation("impl-violates-property", "the canonical spelling of a program is rejected (%s) and a respelling (%s) of it is accepted" % (
+                    r.get("err_a", {}).get("msg", "")[-120:], mode), {"a": b, "b": a, "mode": mode})
+            elif kind in ("ast", "valid-unit", "fixed-regression"):
                 run.violation("correspondence", "a generated base text is rejected by the parser: %s" % r.get("err_a", {}).get("msg", "")[-100:],
                               {"a": a}, no_input=True)
             continue
